@@ -17,6 +17,7 @@ import (
 	"github.com/logrange/logrange/api"
 	"github.com/logrange/logrange/pkg/pipe"
 	"github.com/logrange/range/pkg/records/journal"
+	"github.com/logrange/range/pkg/utils/fileutil"
 	. "verifharness/common"
 )
 
@@ -44,6 +45,7 @@ type PartView struct {
 	Tags   string  `json:"tags"`
 	Exists bool    `json:"exists"`
 	Events []int64 `json:"events"`
+	Err    string  `json:"err,omitempty"` // the partition is there and reading it fails
 }
 
 type Ans struct {
@@ -55,6 +57,7 @@ type Ans struct {
 	Pipes   []string   `json:"pipes,omitempty"`
 	Events  []int64    `json:"events,omitempty"`
 	Short   bool       `json:"short,omitempty"` // round: the wait ended at its deadline
+	Bad     []string   `json:"bad,omitempty"`   // observe, range: events read whose message or fields are not what was written
 }
 
 // crashAtFileSize: from now on the first write that would take a file of this process past k bytes ends the process
@@ -84,6 +87,11 @@ func serveMain(args []string) {
 	}
 	out := json.NewEncoder(os.Stdout)
 	opts := ServerOpts{Dir: dir, WriteFlushMs: flushMs}
+	if len(args) > 3 && strings.HasPrefix(args[3], "chunk:") {
+		var n int64
+		fmt.Sscanf(strings.TrimPrefix(args[3], "chunk:"), "%d", &n)
+		opts.MaxChunkSize = n // many chunks per partition
+	}
 	if len(args) > 3 && strings.HasPrefix(args[3], "ensure:") {
 		// the forwarding pipe is a configured one (PipesConfig.EnsureAtStart): Init creates it when it is not there and leaves
 		// it - and its progress - alone when it is there with the same definition
@@ -115,7 +123,7 @@ func serveMain(args []string) {
 		case "write":
 			evs := make([]*api.LogEvent, len(c.Ts))
 			for i, t := range c.Ts {
-				evs[i] = &api.LogEvent{Timestamp: t, Message: fmt.Sprintf("e%d", t)}
+				evs[i] = eventFor(t)
 			}
 			if c.Lim != nil {
 				crashAtFileSize(*c.Lim) // a write that creates a partition: the process dies inside the tag-index save
@@ -196,7 +204,7 @@ func serveMain(args []string) {
 			//      destination is flushed meanwhile) and the pipe's
 			//      progress file was rewritten since step 1 (the worker is past the position query of this round).
 			t0 := time.Now()
-			pf := filepath.Join(dir, "pipes", "pipe"+c.Name+".dat")
+			pf := filepath.Join(dir, "pipes", "pipe"+fileutil.EscapeToFileName(c.Name)+".dat")
 			before := statOf(pf)
 			srv.JCtrl.(journal.Controller).Visit(ctx, func(j journal.Journal) bool {
 				j.Sync()
@@ -206,7 +214,7 @@ func serveMain(args []string) {
 			have, _ := readAll(ctx, srv, c.Tags, nil)
 			evs := make([]*api.LogEvent, len(c.Ts))
 			for i, t := range c.Ts {
-				evs[i] = &api.LogEvent{Timestamp: t, Message: fmt.Sprintf("e%d", t)}
+				evs[i] = eventFor(t)
 			}
 			if err := srvWrite(ctx, srv, c.Tags, evs); err != nil {
 				out.Encode(ans(err))
@@ -252,11 +260,11 @@ func serveMain(args []string) {
 					pv.Exists = true
 					evs, err := readAll(ctx, srv, t, nil)
 					if err != nil {
-						a.Ok, a.Err = false, err.Error()
+						pv.Err = err.Error() // a verdict of the oracle, not a failure of the harness
 					}
 					pv.Events = evs
 				} else if !strings.Contains(err.Error(), "not found") {
-					a.Ok, a.Err = false, err.Error()
+					pv.Exists, pv.Err = true, err.Error() // registered, and not even its description can be had
 				}
 				a.Parts = append(a.Parts, pv)
 			}
@@ -270,12 +278,16 @@ func serveMain(args []string) {
 				a.Pipes = append(a.Pipes, p.Name)
 			}
 			sort.Strings(a.Pipes)
+			a.Bad = takeBad()
 			out.Encode(a)
 		case "range":
 			rg := [2]int64{c.Lo, c.Hi}
 			evs, err := readAll(ctx, srv, c.Tags, &rg)
-			a := ans(err)
-			a.Events = evs
+			a := Ans{Ok: true, Events: evs}
+			a.Bad = takeBad()
+			if err != nil {
+				a.Bad = append(a.Bad, "RANGE query on "+c.Tags+" fails: "+err.Error())
+			}
 			out.Encode(a)
 		case "stop":
 			if c.Lim != nil {
@@ -329,6 +341,7 @@ func readAll(ctx context.Context, srv *Server, tags string, rg *[2]int64) ([]int
 	ts := make([]int64, len(res.Events))
 	for i, e := range res.Events {
 		ts[i] = e.Timestamp
+		checkEvent(tags, e)
 	}
 	return ts, nil
 }
